@@ -256,7 +256,8 @@ def valid_stream(r, framing, body, nf=None, status=200):
     f = extra_fields(r, r.randrange(0, 5) if nf is None else nf)
     pos = r.randrange(len(f) + 1)
     if framing == "clen":
-        f.insert(pos, (b"Content-Length", str(len(body)).encode()))
+        # Content-Length = 1*DIGIT: leading zeros are legal and must not change the value (seed C09-i: base 0)
+        f.insert(pos, (b"Content-Length", b"0" * r.choice([0, 0, 0, 1, 1, 2, 7]) + str(len(body)).encode()))
         return head_block(r, status, f) + body
     if framing == "chunked":
         f.insert(pos, (b"Transfer-Encoding", b"chunked"))
@@ -274,7 +275,8 @@ CHUNK_LINES = [b"", b" ", b"   ", b"\t", b"zz", b"g", b"-5", b"-0", b"-", b"+", 
                b"5" + b";" + b"e" * 253, b"5;" + b"e" * 300, b" " * 253, b" " * 254, b" " * 255, b" " * 256, b" " * 300,
                b"5\r", b"5\n", b"\r", b"0", b"00", b"0;last", b"-0;x", b"+0", b" 0", b"0x0", b"0x"]
 
-CLEN_VALUES = [b"", b" ", b"5", b"05", b"+5", b"-5", b"-0", b"0", b" 5", b"5 ", b"\x0b5", b"5\x0b", b"0x5", b"5,5", b"5;",
+CLEN_VALUES = [b"010", b"011", b"08", b"09", b"0019", b"0123", b"00", b"000", b"005000", b"0011", b"00000000011",
+               b"", b" ", b"5", b"05", b"+5", b"-5", b"-0", b"0", b" 5", b"5 ", b"\x0b5", b"5\x0b", b"0x5", b"5,5", b"5;",
                b"five", b"18446744073709551615", b"18446744073709551616", b"18446744073709551614",
                b"99999999999999999999999999", b"-18446744073709551615", b"4294967296", b"4294967301", b"5\x00", b"1e1",
                b"5.0", b"00000000000000000000000005", b"9223372036854775807", b"9223372036854775808"]
@@ -687,7 +689,8 @@ def gen_wellformed(ctx, r, size_hint=None, tag="c09", with_body=False):
         # shorter and longer than the final header block
         m, _n = msg_txt(r, r.randrange(100, 200), r.choice([0, 0, 1, nf + 5, 60]))
         interims.append(m)
-    blen = size_hint if size_hint is not None else r.choice([0, 0, 1, 2, 3, 5, 17, 100, 1000, 4095, 4096, 4097, 9000, 20000])
+    blen = size_hint if size_hint is not None else r.choice([0, 0, 1, 2, 3, 5, 8, 10, 17, 19, 100, 123, 1000, 4095, 4096, 4097,
+                                                             5000, 9000, 20000])
     body = rand_body(r, blen)
     if bodiless:
         fr = "none"
@@ -704,6 +707,16 @@ def gen_wellformed(ctx, r, size_hint=None, tag="c09", with_body=False):
     kind = r.choice(["clen", "chunked", "chunked", "close"])
     ctx.count(tag + ".framing." + kind)
     if kind == "clen":
+        # the length as the server wrote it: canonical, or with leading zeros (1*DIGIT; value unchanged - in
+        # particular not read as octal, and 08 / 0019 are numbers)
+        if r.random() < 0.5:
+            digits = b"0" * r.choice([1, 1, 2, 3, 9]) + b"%d" % blen
+            ctx.count(tag + ".clen.leading-zeros")
+            if blen >= 8:
+                ctx.count(tag + ".clen.leading-zeros.value>=8")
+            return ("render 0 %s %s clen.%d.%s %s" % ("|".join(interims) or "-", final, pos, hx0(digits), hx(body)),
+                    blen, ishead, kind)
+        ctx.count(tag + ".clen.canonical")
         return "render 0 %s %s clen.%d %s" % ("|".join(interims) or "-", final, pos, hx(body)), blen, ishead, kind
     if kind == "close":
         return "render 0 %s %s close %s" % ("|".join(interims) or "-", final, hx(body)), blen, ishead, kind
